@@ -77,6 +77,14 @@ func (hs *heightSub) SetHeight(height uint64) {
 // It can return errElapsedHeight, which means a requested height was already seen
 // and caller should get it elsewhere.
 func (hs *heightSub) Wait(ctx context.Context, height uint64) error {
+	return hs.waitFor(ctx, height, nil)
+}
+
+// waitFor is [Wait] with an optional stored check that runs once the subscription is registered.
+// A header stored and notified between the caller's own lookup and the registration does not
+// advance the height if it is not adjacent to it, so without the check such a caller would never
+// be released. If the check reports true, errElapsedHeight is returned.
+func (hs *heightSub) waitFor(ctx context.Context, height uint64, stored func() bool) error {
 	if hs.Height() >= height {
 		return errElapsedHeight
 	}
@@ -99,6 +107,16 @@ func (hs *heightSub) Wait(ctx context.Context, height uint64) error {
 	}
 	sac.count++
 	hs.heightSubsLk.Unlock()
+
+	if stored != nil && stored() {
+		hs.heightSubsLk.Lock()
+		if hs.heightSubs[height] == sac {
+			// the request is not needed anymore
+			hs.notify(height, false)
+		}
+		hs.heightSubsLk.Unlock()
+		return errElapsedHeight
+	}
 
 	select {
 	case <-sac.signal:
